@@ -191,7 +191,7 @@ def run(ctx):
     # the helpers see the input only through request_byte_at_offset(k); that it answers with byte k of the stream
     # also when the window was refilled, moved or shrunk in between is the window law of the reader: C02-R3/R4/R7
     from . import c02
-    r6 = ctx.rule("C16-R6", "the look-ahead primitive answers from a faithful window: appended reads, shrinking and the observers keep the window (shared with C02-R3/R4/R7)", floor=10)
+    r6 = ctx.rule("C16-R6", "the look-ahead primitive answers from a faithful window: appended reads, shrinking and the observers keep the window (shared with C02-R2/R3/R4/R5/R6/R7/R9)", floor=10)
     c02.run_r3(ctx, r6)
     c02.run_r4(ctx, r6)
     c02.run_r7(ctx, r6)
@@ -203,6 +203,9 @@ def run(ctx):
     c02.run_r9(ctx, r6)
     # ... and a refill (append, realign, shrink) leaves position, mark and the window's bytes where they were: C02-R2
     c02.run_r2(ctx, r6)
+    # ... and "the end of input" is the end of the source: complete is set on Ok(0) / a failed read only - a short read
+    # is not the end (the helpers would stop in the middle of a run, a CRLF or a pattern that arrives in two pieces): C02-R5
+    c02.run_r5(ctx, r6)
 
     ctx.extra["exhaustive"] = True
     ctx.assume("DeferredReader::request_byte_at_offset returns the byte at that offset or None at the end of the available data (C02)")
